@@ -1,0 +1,4 @@
+// Package verifhook is the sink side of the verification hooks that are
+// compiled into the library only under the `verif` build tag. Without the tag
+// this package is empty and nothing in the library refers to it.
+package verifhook
